@@ -25,7 +25,7 @@ from vlib import coq  # noqa: E402
 
 PROP = "C08"
 LEVEL = "proof"
-COQ_TARGETS = ["C08/Model.vo", "C08/Proofs.vo"]
+COQ_TARGETS = ["C08/Model.vo", "C08/Proofs.vo", "C08/ProofsPS.vo", "C08/ProofsFock.vo", "C08/ProofsMain.vo", "C08/Refuted.vo"]
 COQ_DIRS = ["C08"]
 PROPERTIES_FILE = "Properties/C08.v"
 ALLOWED_AXIOMS = set()
